@@ -122,6 +122,10 @@ pub struct RawItem {
     pub fails: bool,
     /// virtual processing time (future kinds only)
     pub delay_ms: u32,
+    /// a failing item of the futures-fallible executor fails with a `tokio::time::error::Elapsed` of its own (a pipeline that
+    /// uses `tokio::time::timeout(..).await?` inside): still a *failed* item, not one the executor timed out
+    #[serde(default)]
+    pub elapsed_err: bool,
 }
 
 #[derive(Clone, Debug, Serialize, Deserialize)]
@@ -214,7 +218,10 @@ fn raw_run<const I: usize>(p: &RawParams) {
                             tokio::time::sleep(units(item.delay_ms)).await;
                         }
                         guard.finish();
-                        if item.fails {
+                        if item.fails && item.elapsed_err {
+                            let elapsed = tokio::time::timeout(Duration::ZERO, std::future::pending::<()>()).await.expect_err("a zero timeout on a pending future elapses");
+                            Err::<u32, BoxErr>(Box::new(elapsed))
+                        } else if item.fails {
                             Err::<u32, BoxErr>(Box::from(format!("item {} failed", i)))
                         } else {
                             Ok(i as u32)
@@ -400,7 +407,8 @@ fn draw_items(rng: &mut Rng, exec: ExecKind, timeout_ms: u32, max_items: u64, un
             } else {
                 rng.below(25) as u32
             };
-            RawItem { fails: exec.is_fallible() && rng.chance(1, 4), delay_ms }
+            let fails = exec.is_fallible() && rng.chance(1, 4);
+            RawItem { fails, delay_ms, elapsed_err: fails && exec == ExecKind::FuturesFallible && rng.chance(1, 3) }
         })
         .collect()
 }
